@@ -16,6 +16,7 @@ warnings.filterwarnings('ignore')
 import numpy as np
 import pandas as pd
 
+import common
 from common import f2b, b2f, ts, secs, run_driver_json, Tally, rng_for
 
 from qstrader import settings
@@ -177,25 +178,25 @@ def latest_observed(rows, t):
 
 
 def execute(case):
-    d1 = tempfile.mkdtemp(prefix='qsv_k2_')
+    d1 = common.scratch_dir('k2a')
     dirs = [d1]
     try:
         write_csvs(case['files'], d1)
         srcs = [CSVDailyBarDataSource(d1, None, adjust_prices=case['adjust'])]
         parsed = [{('EQ:' + s): parsed_rows(d1, s) for s in case['files']}]
         if case.get('files2'):
-            d2 = tempfile.mkdtemp(prefix='qsv_k2_')
+            d2 = common.scratch_dir('k2b')
             dirs.append(d2)
             write_csvs(case['files2'], d2)
             srcs.append(CSVDailyBarDataSource(d2, None, adjust_prices=case['adjust']))
             parsed.append({('EQ:' + s): parsed_rows(d2, s) for s in case['files2']})
         dh = BacktestDataHandler(None, data_sources=srcs)
         # relational variants of the first source: rows sorted by date; rows after the cut day rewritten
-        d3 = tempfile.mkdtemp(prefix='qsv_k2_')
+        d3 = common.scratch_dir('k2c')
         dirs.append(d3)
         write_csvs({s: sorted(r, key=lambda x: x[0]) for s, r in case['files'].items()}, d3)
         src_sorted = CSVDailyBarDataSource(d3, None, adjust_prices=case['adjust'])
-        d4 = tempfile.mkdtemp(prefix='qsv_k2_')
+        d4 = common.scratch_dir('k2d')
         dirs.append(d4)
         cut_iso = (EPOCH + dtm.timedelta(days=case['cut_day'])).isoformat()
         future = {}
